@@ -57,6 +57,14 @@ def main(path):
         batch, group = calls.batch(10)
         fails, _ = tlc.validate_calls(batch)
         fails = [f for f in fails if not co.findings.match(pid, {"clause": f[2], **calls.meta[0]})]
+    elif fam == "hook":
+        import checks_world
+        res = checks_world.hook_part(0)
+        for line in res["lines"]:
+            print(line)
+        if not res["violations"]:
+            print("the violation does not reproduce on the current tree")
+        return 1 if res["violations"] else 0
     else:
         print(f"  (family {fam}: re-running the quick check of {pid}, which regenerates this case from the same seed)")
         res = co.check(pid, "quick", 0)
